@@ -101,7 +101,13 @@ func MakeReceptorSAN(dnsNames []string, ipAddresses []net.IP, nodeIDs []string) 
 		if err != nil {
 			return nil, err
 		}
-		rawValues = append(rawValues, asn1.RawValue{Tag: 0, Class: 2, IsCompound: true, Bytes: asnOtherName[2:]})
+		// Re-tag the SEQUENCE as [0]: keep its content, whatever the size of its header
+		// (the header is longer than two bytes when the content exceeds 127 bytes).
+		var otherNameSeq asn1.RawValue
+		if _, err = asn1.Unmarshal(asnOtherName, &otherNameSeq); err != nil {
+			return nil, err
+		}
+		rawValues = append(rawValues, asn1.RawValue{Tag: 0, Class: 2, IsCompound: true, Bytes: otherNameSeq.Bytes})
 	}
 	sanBytes, err := asn1.Marshal(rawValues)
 	if err != nil {
